@@ -19,7 +19,7 @@
 #include "table/arm64.h"
 
 static char reg_size[] = { 'w', 'x' };
-static char scalar_size[] = { 'b', 'h', 's', 'd', 'q' };
+static char scalar_size[] = { 'b', 'h', 's', 'd', 'q', '?', '?', '?' };
 static const char *vec_size[] =
 {
   "8b", "16b", "4h", "8h", "2s", "4s", "1d", "2d"
